@@ -8,8 +8,12 @@ CHECKS = {
         "text": "Machine-checked proof (Coq 8.16) that for every stream of well-formed SET/GET/DEL requests and EVERY way of cutting "
                 "it into socket reads (and any pipelining depth) the handler model writes exactly the concatenation of the map's "
                 "replies, one per request in order, ends with the map's store and closes cleanly; built on the stream theorem of C08. "
-                "Tied to /repo by driving the real server over TCP with generated request sequences under several segmentations and "
-                "pipelining modes, comparing reply bytes and final store with the model and with an independent map oracle.",
+                "The crate's own client (src/net/client.rs) is modelled too: end to end, the calls of a client session answered by the "
+                "handler return call by call what the map says for every segmentation of the reply stream; a stream cut inside a reply "
+                "gives a reset, never a value. Tied to /repo by driving the real server over TCP with generated request sequences under "
+                "several segmentations and pipelining modes (reply bytes and final store compared with the model and with an independent "
+                "map oracle), by running the real client against a scripted server (expected, error, other, doubled, truncated, missing and "
+                "malformed replies) and against the real server, each compared with the model.",
         "design_ref": "DESIGN.md section 8, C06",
         "note": "The handler model runs over a map; C01 links the real engine to it. Segment boundaries over loopback are encouraged, "
                 "not guaranteed; the deterministic segmentation tie is C08's scripted stream. tokio/TCP are modelled, not verified.",
